@@ -35,8 +35,15 @@ CONSTANTS
   ScsSids,       \* message stream ids a Set Chunk Size may travel on ("any message type ... any stream id")
   ReaderScsAnySid,  \* TRUE: the reader follows every Set Chunk Size it reads, as the writer does; FALSE: named deviation
                  \* "reader-ignores-scs-on-stream" (only the one on message stream 0 switches the reader)
+  NoSharedState, \* TRUE (assumption): this module is ONE session.  A process runs many; a second session is a second, disjoint
+                 \* copy of all variables below - nothing (no buffer, no table, no counter of the package) is common to two
+                 \* sessions, so every property of one session holds for each of them whatever the others do.  The assumption
+                 \* is not provable here; the replay stage "pair" tests it (two behaviours at once in one process, turns changing
+                 \* at every transport read, under the race detector; named deviation "sessions-share-state")
   LazyFlushTypes \* {}: when WriteMessage returns the message is in the transport; otherwise named deviation "lazy-flush":
                  \* messages of these types stay in the writer's buffer until the next other message is written
+
+ASSUME NoSharedState = TRUE
 
 E == {"A", "B"}
 Peer(e) == IF e = "A" THEN "B" ELSE "A"
